@@ -328,6 +328,16 @@ static void runBlocks(const Opt &o, Ev &ev) {
             if (!m.empty()) { failEnum(o, ev, "one", replayOf(c), m); if (ev.failures.size() >= 5) return; }
         }
     }
+    // ASCII arrays with more elements than a 8- or 16-bit item counter holds (one result item and one parameter per element)
+    static const int farN[] = {255, 256, 257, 600, 32767, 32768, 32769, 40000, 65535, 65536, 65537};
+    for (size_t fi = 0; fi < sizeof farN / sizeof farN[0]; fi++) {
+        if ((int) ((fi + 5) % (size_t) o.workers) != o.worker) continue;
+        RT c; c.item.kind = O_ARR; c.item.format = 0; c.item.elem = 4; c.reader.kind = R_ARR_I32; c.reader.n = farN[fi];
+        for (int i = 0; i < farN[fi]; i++) c.item.arr.push_back((uint64_t) (uint32_t) (int32_t) (i % 7 == 0 ? -i : i));
+        std::string m = roundTrip(c);
+        ev.eval(); ev.ntCount(); ev.label("far-out-ascii-array");
+        if (!m.empty()) { failEnum(o, ev, "one", replayOf(c), m.substr(0, 600)); if (ev.failures.size() >= 5) return; }
+    }
     ev.exhaustive["arbitrary blocks of every length 0..1100 (bytes derived from the seed, with LF ; CR planted)"] = true;
 }
 
